@@ -320,6 +320,7 @@ pub fn property() -> Property {
             signature: no_signature,
             essential: &["shared_handle_with_ticker_or_update", "inside_multi_progress", "three_threads", "pct_scheduler", "timeouts_may_fire", "several_schedules"],
             workers: default_workers(),
+            decode: None,
         })],
     }
 }
